@@ -1,5 +1,5 @@
 """Rules shared by C01 / C02 / C05: string-escape agreement, follow bytes, number alphabet."""
-from . import classes, common, facts as F, lex, sim, tables
+from . import cfg, classes, common, facts as F, lex, sim, tables
 from .sim import Adt, Bytes, UNK
 
 R6RS_WRITER = "print::write_r6rs_char_escape"
@@ -135,8 +135,13 @@ def _run_seq(crate, fn_path, seq, args, visits=3):
     f = crate.fn(fn_path)
     if f is None:
         return None
-    S = sim.Sim([crate], hooks={"call": lex.seq_hook(seq)}, inline=lambda a, b: b.path in NUM_INLINE,
-                max_visits=visits, max_paths=5000)
+    # the stages of the number reader stay calls (the rule observes which of them is reached); every other
+    # loop-free helper (sign readers, digit decoders) is looked through
+    hi = lex.helper_inline(crate, NUM_INLINE)
+    stages = ("parse_num_literal", "parse_num_tail", "parse_decimal", "parse_exponent", "parse_exponent_overflow",
+              "parse_long_integer", "f64_from_parts", "parse_radix_literal", "parse_number")
+    inl = lambda a, b: hi(a, b) and not (b.path.rsplit("::", 1)[-1] in stages and b.path != fn_path)
+    S = sim.Sim([crate], hooks={"call": lex.seq_hook(seq)}, inline=inl, max_visits=visits, max_paths=5000)
     return f, S.run(f, args=args)
 
 
@@ -227,8 +232,11 @@ def printable_chars(rule, crate, dialect):
     if wf is None or rf is None:
         rule.anchor_missing("char writer / reader for %s" % dialect)
         return
-    inl = lambda a, b: b.path in lex.WRAPPERS or b.path in ("parse::read::decode_elisp_char_escape", "parse::read::is_delimiter",
-                                                             "parse::read::decode_r6rs_char_hex_escape", "parse::read::decode_hex_val")
+    # the character decoders and every scalar / loop-free helper they share are looked through
+    hi = lex.helper_inline(crate, ("parse::read::decode_elisp_char_escape", "parse::read::is_delimiter",
+                                   "parse::read::decode_r6rs_char_hex_escape", "parse::read::decode_hex_val"))
+    inl = lambda a, b: hi(a, b) or (b.crate == crate.name and b.file.endswith("parse/read.rs") and b.kind != "closure"
+                                    and not b.impl_trait and "decode_" in b.path and not cfg.back_edges(b))
     n_ok = 0
     fwd = common.sink_forwarders(crate)
     for n in range(32, 127):
